@@ -12,7 +12,7 @@ TRUSTED = [
     'run by replaying every enumerated history (reader operations with committed writer sessions inserted at every position) on real '
     'db_sessions over a SQLite file and comparing failure flag and every observation with the model inside Coq (vm_compute)',
     'the harness (tools/c20_sessions.py, c21_driver.py): worker threads stepped by a controller; the external values a re-fetch brings are read '
-    'from the file with a raw sqlite3 connection just before the reader operation; for len() the set content is peeked from obj._vals_',
+    'from the file with a raw sqlite3 connection just before the reader operation; for len() the set content and, after every observation, the read bits of the members\' back-reference are peeked from obj._vals_ / item._rbits_',
 ]
 ASSUMPTIONS = [
     'a re-fetch of a row is a query in the reading session that returns the object again (or the first access, or a lazy attribute load); '
@@ -23,7 +23,7 @@ ASSUMPTIONS = [
     'values observed through query results that are not entity instances (select(p.a for p in P)) are outside the statement',
 ]
 RULE = ('exhaustive: every reader program of a fixed pool (scalar: reads / re-fetch queries / own writes over plain, volatile and lazy attributes; '
-        'one-to-many and many-to-many collections: len / iteration / re-fetch of items / load of the other side) x every writer action '
+        'one-to-many (back-reference plain / member of a secondary unique key / member of the primary key) and many-to-many collections: len / iteration / re-fetch of items / load of the other side) x every writer action '
         '(committed by another session) x every insertion position, and every pair of writer actions at every pair of positions; '
         'non-trivial = the run ended in UnrepeatableReadError or an observation was made after a writer action; distinct = distinct operation sequences')
 
@@ -55,6 +55,7 @@ O2M_PROGS = [
     [['len'], ['len']],
 ]
 O2M_ACTS = [['move', i, g] for i in (1, 2, 3) for g in (1, 2, None) if not (i in (1, 2) and g == 1) and not (i == 3 and g == 2)]
+PK_ACTS = [['move', 1, 2], ['move', 2, 2], ['move', 3, 1]]      # pk-member back-reference: only moves between existing owners
 M2M_PROGS = [
     [['len'], ['load_rev', 1], ['len']],
     [['len'], ['load_rev', 3], ['len']],
@@ -118,6 +119,14 @@ def gen_cases(ctx, deep=False):
         for m in (0, 1) + ((2,) if big or k in (0, 1) else ()) + ((3,) if huge and len(prog) <= 3 else ()):
             for ops in insertions(prog, O2M_ACTS, m):
                 put({'kind': 'coll', 'm2m': False, 'ops': ops})
+    # the same reader programs on a one-to-many whose back-reference is a member of a secondary unique key (composite_key(owner, number))
+    # and on one whose back-reference is a member of the primary key (the exempt case of Set.copy; items are moved by a raw connection)
+    for k, prog in enumerate(O2M_PROGS):
+        for m in (0, 1) + ((2,) if big and k in (0, 1, 5) else ()):
+            for ops in insertions(prog, O2M_ACTS, m):
+                put({'kind': 'coll', 'm2m': False, 'ref': 'unique', 'ops': ops})
+            for ops in insertions(prog, PK_ACTS, m):
+                put({'kind': 'coll', 'm2m': False, 'ref': 'pk', 'ops': ops})
     for k, prog in enumerate(M2M_PROGS):
         for m in (0, 1) + ((2,) if big or k in (0, 3) else ()) + ((3,) if huge else ()):
             for ops in insertions(prog, M2M_ACTS + ([['link', 1], ['link', 2], ['unlink', 3]] if m >= 2 else []), m):
@@ -162,6 +171,7 @@ def cnats(xs):
 def cev(e):
     if e[0] in ('Read', 'Write', 'Load'): return '(%s %d %s)' % (e[0], e[1], cval(e[2]))
     if e[0] in ('CObsCopy', 'CObsLen'): return '(%s %s)' % (e[0], cnats(e[1]))
+    if e[0] == 'Copy': return '(copy_event %s %s)' % (vlib.cbool(e[1]), cnats(e[2]))
     if e[0] in ('CItemReload', 'CRevLoad'): return '(%s %d %s)' % (e[0], e[1], vlib.cbool(e[2]))
     raise ValueError(e)
 
@@ -170,8 +180,11 @@ def coq_case(c, r):
         tev = clist(r['events'], lambda e: '(%s %d %s)' % ('TObs' if e[0] == 'obs' else 'TWrite', e[1], cval(e[2])))
         return 'outcome_eqb (outcome VOL %s) (%s, %s)' % (clist(r['model'], cev), vlib.cbool(r['failed']), tev)
     obs = '[' + '; '.join(cnats(e[2]) for e in r['events']) + ']'
-    if not r['events']: obs = '(@nil (list nat))'
-    return 'coutcome_eqb (coutcome %s %s) (%s, %s)' % (vlib.cbool(c['m2m']), clist(r['model'], cev), vlib.cbool(r['failed']), obs)
+    pins = '[' + '; '.join(cnats(e[3]) for e in r['events']) + ']'
+    if not r['events']: obs = pins = '(@nil (list nat))'
+    evs = clist(r['model'], cev)
+    return ('coutcome_eqb (coutcome %s %s) (%s, %s) && list_eqb (list_eqb Nat.eqb) (cpins %s cinit %s) %s'
+            % (vlib.cbool(c['m2m']), evs, vlib.cbool(r['failed']), obs, vlib.cbool(c['m2m']), evs, pins))
 
 HEADER = ('From Coq Require Import ZArith List Bool.\nImport ListNotations.\nRequire Import PonyV.Model.C21Reload.\n\nOpen Scope nat_scope.\n'
           'Definition VOL : list bool := %s.\n' % VOL)
@@ -205,14 +218,14 @@ def nontrivial_case(c, r):
 def correspondence(ctx):
     cases = gen_cases(ctx)
     disagreements, samples = [], []
-    dist = {'scalar': 0, 'one_to_many': 0, 'many_to_many': 0, 'ended_in_UnrepeatableReadError': 0, 'writer_actions': 0, 'observations': 0}
+    dist = {'scalar': 0, 'one_to_many': 0, 'one_to_many_ref_in_unique_key': 0, 'one_to_many_ref_in_pk': 0, 'many_to_many': 0, 'ended_in_UnrepeatableReadError': 0, 'writer_actions': 0, 'observations': 0}
     try:
         results = run_real(cases)
     except DriverProblem as e:
         return Corr(cases=len(_cache), disagreements=[{'what': 'real sessions did not finish (deadlock or driver error)', 'input': e.case, 'impl': str(e.what)[:1500]}])
     exprs, meta, nontriv = [], [], set()
     for c, r in zip(cases, results):
-        dist['scalar' if c['kind'] == 'scalar' else 'many_to_many' if c['m2m'] else 'one_to_many'] += 1
+        dist['scalar' if c['kind'] == 'scalar' else 'many_to_many' if c['m2m'] else {'plain': 'one_to_many', 'unique': 'one_to_many_ref_in_unique_key', 'pk': 'one_to_many_ref_in_pk'}[c.get('ref', 'plain')]] += 1
         dist['ended_in_UnrepeatableReadError'] += bool(r['failed'])
         dist['writer_actions'] += sum(1 for op in c['ops'] if op[0] in ('X', 'move', 'link', 'unlink'))
         dist['observations'] += len(r['events'])
@@ -228,7 +241,7 @@ def correspondence(ctx):
     bad = run_bools(ctx, exprs) if exprs else []
     for i in bad[:20]:
         c, r = meta[i]
-        disagreements.append({'what': 'model and real session differ (failure flag / observations)', 'input': c,
+        disagreements.append({'what': 'model and real session differ (failure flag / observations / read bits set on the members by copy)', 'input': c,
                               'impl': {'failed': r['failed'], 'events': r['events'], 'model_events': r['model']}, 'coq_case': exprs[i][:1500]})
     picks = [x for x in zip(cases, results) if x[1]['failed']][:2] + [x for x in zip(cases, results) if x[0]['kind'] == 'coll' and not x[1]['failed']][-1:]
     for c, r in picks:
@@ -252,7 +265,7 @@ def oracle(c, r):
                             % ('abvz'[a], e[2], 'read' if last[a][0] == 'obs' else 'written', last[a][1])))
             last[a] = (e[0], e[2])
     else:
-        rel = 'm2m' if c['m2m'] else 'o2m'
+        rel = 'm2m' if c['m2m'] else {'plain': 'o2m', 'unique': 'o2m-ref-in-unique-key', 'pk': 'o2m-ref-in-pk'}[c.get('ref', 'plain')]
         first = None
         for e in r['events']:
             size = e[1] if e[0] == 'len' else len(e[1])
@@ -267,8 +280,37 @@ def oracle(c, r):
     return bad
 
 
+def touch_cases():
+    """search only: the reader iterates the collection (sees member 1), another session moves member 1 away (or not), the reader
+    then updates another attribute of member 1 and commits.  Having iterated the collection it has READ the member's back-reference:
+    the commit must fail (optimistic check / primary key no longer there) iff the member was moved."""
+    out = []
+    for ref in ('plain', 'unique', 'pk'):
+        targets = [2] if ref == 'pk' else [2, None]
+        for obs in ('copy',):
+            out.append({'kind': 'coll', 'm2m': False, 'ref': ref, 'commit': True, 'ops': [[obs], ['touch', 1]]})
+            for g in targets:
+                out.append({'kind': 'coll', 'm2m': False, 'ref': ref, 'commit': True, 'ops': [[obs], ['move', 1, g], ['touch', 1]]})
+                out.append({'kind': 'coll', 'm2m': False, 'ref': ref, 'commit': True, 'ops': [['len'], [obs], ['move', 2, g], ['move', 1, g], ['touch', 1]]})
+    return out
+
+
+def touch_oracle(c, r):
+    if r['failed'] or r['other']:
+        return [('harness:touch-case-failed-early', 'touch scenario ended before the commit: %r %r' % (r['failed'], r['other']))]
+    rel = {'plain': 'o2m', 'unique': 'o2m-ref-in-unique-key', 'pk': 'o2m-ref-in-pk'}[c['ref']]
+    moved = any(op[0] == 'move' and op[1] == 1 for op in c['ops'])
+    if moved and r['commit'] == 'committed':
+        return [('%s:iterated-then-updated-moved-member:committed' % rel,
+                 '%s collection iterated (member 1 seen), another session moved member 1 away and committed, the reader then updated member 1 and '
+                 'its commit succeeded: the back-reference it had read through the iteration was not checked' % rel)]
+    if not moved and r['commit'] != 'committed':
+        return [('%s:iterated-then-updated-member:spurious-%s' % (rel, r['commit']), 'nothing changed but the commit ended in %s' % r['commit'])]
+    return []
+
+
 def search(ctx, deep):
-    cases = gen_cases(ctx, deep)
+    cases = gen_cases(ctx, deep) + touch_cases()
     failures, nontriv, seen_keys = [], set(), {}
     dist = {'cases': len(cases), 'reused_from_correspondence': sum(1 for c in cases if case_key(c) in _cache)}
     try:
@@ -277,9 +319,9 @@ def search(ctx, deep):
         return Search(evaluations=len(_cache), failures=[Failure('deadlock-or-driver-error', 'real sessions did not finish: %s' % str(e.what)[:500], {'case': e.case})],
                       distribution=dist)
     for c, r in zip(cases, results):
-        for key, what in oracle(c, r):
+        for key, what in (touch_oracle(c, r) if c.get('commit') else oracle(c, r)):
             if seen_keys.setdefault(key, 0) < 1:
-                failures.append(Failure(key, '%s  [operations %r]' % (what, c['ops']), {'case': c}))
+                failures.append(Failure(key, '%s  [%s operations %r]' % (what, c.get('ref', ''), c['ops']), {'case': c}))
             seen_keys[key] += 1
         if nontrivial_case(c, r): nontriv.add(case_key(c))
     dist['failing_cases_by_key'] = seen_keys
@@ -296,7 +338,7 @@ def replay(ctx, data):
         r = run_real([c])[0]
     except DriverProblem as e:
         return Failure('deadlock-or-driver-error', str(e.what)[:500], data)
-    bad = oracle(c, r)
+    bad = touch_oracle(c, r) if c.get('commit') else oracle(c, r)
     if bad: return Failure(bad[0][0], bad[0][1], data)
     return None
 
